@@ -96,7 +96,7 @@ func pipeMode(work string) {
 			if watchdog != nil {
 				watchdog.Stop()
 			}
-			watchdog = time.AfterFunc(8*time.Second, func() {
+			watchdog = time.AfterFunc(watchdogTime(), func() {
 				os.Stdout.WriteString("WATCHDOG " + id + "\n")
 				os.Exit(3)
 			})
@@ -320,4 +320,15 @@ func main() {
 	default:
 		os.Exit(2)
 	}
+}
+
+// watchdogTime: wall-clock budget of one case (TSHDUMP_WATCHDOG seconds, default 8; the driver re-runs a case that ran into it alone
+// with a larger budget before it calls the case divergent - a loaded machine must not look like a hang)
+func watchdogTime() time.Duration {
+	if v := os.Getenv("TSHDUMP_WATCHDOG"); v != "" {
+		if n, err := strconv.Atoi(v); err == nil && n > 0 {
+			return time.Duration(n) * time.Second
+		}
+	}
+	return 8 * time.Second
 }
